@@ -9,14 +9,18 @@ CONSTANTS
   Static,     \* [Node -> Int]        evaluate::score at remaining depth 0
   MateBonus,  \* [Node -> Int]        added per remaining depth when the node has no moves
   Root, RootMax, Depth,
+  Root2, Root2Max,   \* a second search with the SAME context (cache kept) after the first has finished --
+                     \* "one context reused across the successive searches of a game"; Root2 outside the node set (e.g. 9999): none
   KeyMode     \* "full" = (hash, depth, side, alpha, beta); "window" = (hash, alpha, beta); "noside"; "nodepth"
 
 MIN == -99
 MAX == 99
-Tasks == 1..Len(Children[Root])
-
-VARIABLES cache, stack, ret, score, pc
-vars == <<cache, stack, ret, score, pc>>
+VARIABLES cache, stack, ret, score, pc, ph
+vars == <<cache, stack, ret, score, pc, ph>>
+CurRoot == IF ph = 1 THEN Root ELSE Root2
+CurMax == IF ph = 1 THEN RootMax ELSE Root2Max
+TasksOf(r) == 1..Len(Children[r])
+Tasks == TasksOf(CurRoot)
 
 Max2(a, b) == IF a >= b THEN a ELSE b
 Min2(a, b) == IF a <= b THEN a ELSE b
@@ -40,11 +44,12 @@ Frame(n, d, a, b, mx) == [n |-> n, d |-> d, a |-> a, b |-> b, mx |-> mx,
                           v |-> IF mx THEN MIN ELSE MAX, i |-> 0, a0 |-> a, b0 |-> b]
 
 Init ==
+  /\ ph = 1
   /\ cache = << >>          \* function with empty domain
-  /\ stack = [t \in Tasks |-> << Frame(Children[Root][t], Depth - 1, MIN, MAX, ~RootMax) >>]
-  /\ ret = [t \in Tasks |-> MIN]
-  /\ score = [t \in Tasks |-> MIN]
-  /\ pc = [t \in Tasks |-> "call"]
+  /\ stack = [t \in TasksOf(Root) |-> << Frame(Children[Root][t], Depth - 1, MIN, MAX, ~RootMax) >>]
+  /\ ret = [t \in TasksOf(Root) |-> MIN]
+  /\ score = [t \in TasksOf(Root) |-> MIN]
+  /\ pc = [t \in TasksOf(Root) |-> "call"]
 
 \* deliver value val to the parent frame of task t (stack s already popped)
 Deliver(t, s, val, newCache) ==
@@ -53,7 +58,7 @@ Deliver(t, s, val, newCache) ==
     /\ pc' = [pc EXCEPT ![t] = "done"]
     /\ stack' = [stack EXCEPT ![t] = s]
     /\ cache' = newCache
-    /\ UNCHANGED ret
+    /\ UNCHANGED <<ret, ph>>
   ELSE
     LET p == s[Len(s)]
         v2 == IF p.mx THEN Max2(p.v, val) ELSE Min2(p.v, val)
@@ -68,12 +73,12 @@ Deliver(t, s, val, newCache) ==
        THEN /\ stack' = [stack EXCEPT ![t] = Append(base, p2)]
             /\ pc' = [pc EXCEPT ![t] = "store"]
             /\ cache' = newCache
-            /\ UNCHANGED <<ret, score>>
+            /\ UNCHANGED <<ret, score, ph>>
        ELSE /\ stack' = [stack EXCEPT ![t] =
                  Append(Append(base, p2), Frame(Children[p.n][i2 + 1], p.d - 1, a2, b2, ~p.mx))]
             /\ pc' = [pc EXCEPT ![t] = "call"]
             /\ cache' = newCache
-            /\ UNCHANGED <<ret, score>>
+            /\ UNCHANGED <<ret, score, ph>>
 
 Pop(s) == [k \in 1..(Len(s) - 1) |-> s[k]]
 
@@ -86,9 +91,9 @@ Probe(t) ==
      ELSE IF f.d = 0 \/ Children[f.n] = << >>
           THEN /\ stack' = [stack EXCEPT ![t] = Append(Pop(s), [f EXCEPT !.v = Leaf(f.n, f.d)])]
                /\ pc' = [pc EXCEPT ![t] = "store"]
-               /\ UNCHANGED <<cache, ret, score>>
+               /\ UNCHANGED <<cache, ret, score, ph>>
           ELSE /\ stack' = [stack EXCEPT ![t] = Append(s, Frame(Children[f.n][1], f.d - 1, f.a, f.b, ~f.mx))]
-               /\ UNCHANGED <<cache, ret, score, pc>>
+               /\ UNCHANGED <<cache, ret, score, pc, ph>>
 
 \* one shared write: set_cache at function exit (key uses the ORIGINAL window)
 Store(t) ==
@@ -99,16 +104,26 @@ Store(t) ==
      IN Deliver(t, Pop(s), f.v, nc)
 
 AllDone == \A t \in Tasks : pc[t] = "done"
-Next == (\E t \in Tasks : Probe(t) \/ Store(t)) \/ (AllDone /\ UNCHANGED vars)
+HasSecond == Root2 \in DOMAIN Children
+Finished == AllDone /\ (ph = 2 \/ ~HasSecond)
+\* the same context (its cache) serves the next search of the game
+NextSearch ==
+  /\ AllDone /\ ph = 1 /\ HasSecond
+  /\ ph' = 2 /\ cache' = cache
+  /\ stack' = [t \in TasksOf(Root2) |-> << Frame(Children[Root2][t], Depth - 1, MIN, MAX, ~Root2Max) >>]
+  /\ ret' = [t \in TasksOf(Root2) |-> MIN]
+  /\ score' = [t \in TasksOf(Root2) |-> MIN]
+  /\ pc' = [t \in TasksOf(Root2) |-> "call"]
+Next == (\E t \in Tasks : Probe(t) \/ Store(t)) \/ NextSearch \/ (Finished /\ UNCHANGED vars)
 Spec == Init /\ [][Next]_vars /\ WF_vars(Next)
 
-Best == IF RootMax THEN CHOOSE v \in {score[t] : t \in Tasks} : \A t \in Tasks : v >= score[t]
+Best == IF CurMax THEN CHOOSE v \in {score[t] : t \in Tasks} : \A t \in Tasks : v >= score[t]
         ELSE CHOOSE v \in {score[t] : t \in Tasks} : \A t \in Tasks : v <= score[t]
 \* engine tie-break: maximizing -> first best in candidate order; minimizing -> last best
-Chosen == IF RootMax THEN CHOOSE t \in Tasks : score[t] = Best /\ \A u \in Tasks : score[u] = Best => t <= u
+Chosen == IF CurMax THEN CHOOSE t \in Tasks : score[t] = Best /\ \A u \in Tasks : score[u] = Best => t <= u
           ELSE CHOOSE t \in Tasks : score[t] = Best /\ \A u \in Tasks : score[u] = Best => t >= u
 
-ExactValue == AllDone => Best = Minimax(Root, Depth, RootMax)
-ExactTasks == \A t \in Tasks : pc[t] = "done" => score[t] = Minimax(Children[Root][t], Depth - 1, ~RootMax)
-Terminates == <>AllDone
+ExactValue == AllDone => Best = Minimax(CurRoot, Depth, CurMax)
+ExactTasks == \A t \in Tasks : pc[t] = "done" => score[t] = Minimax(Children[CurRoot][t], Depth - 1, ~CurMax)
+Terminates == <>Finished
 =============================================================================
